@@ -49,6 +49,8 @@ type Op struct {
 	// engine call that ran the callback has returned, not from inside it (from inside it deadlocks by design: the
 	// engine runs callbacks with its PIT lock held)
 	Retry int `json:"retry,omitempty"`
+	// nack: the Nack header carries no reason (NDNLPv2: "None")
+	NoReason bool `json:"no_reason,omitempty"`
 	// race: the sub-operations (express / data / nack / fire) run as concurrent tasks; a cooperative scheduler lets
 	// one of them run at a time and switches at the engine's lock acquisitions, Sched picks who continues
 	Sub   []Op  `json:"sub,omitempty"`
@@ -61,6 +63,13 @@ func (Engine) Name() string { return "enginesim" }
 
 var comps = []string{"a", "b"}
 
+func pickComp(r *kit.Rand) string {
+	if r.Chance(0.1) {
+		return kit.Pick(r, []string{"V1", "V01", "Gv"})
+	}
+	return kit.Pick(r, comps)
+}
+
 func genName(r *kit.Rand, pool []string) string {
 	if len(pool) > 0 && r.Chance(0.7) {
 		n := kit.Pick(r, pool)
@@ -68,7 +77,7 @@ func genName(r *kit.Rand, pool []string) string {
 		case 0, 1:
 			return n
 		case 2:
-			return n + "/" + kit.Pick(r, comps)
+			return n + "/" + pickComp(r)
 		default:
 			if i := strings.LastIndex(n, "/"); i > 0 {
 				return n[:i]
@@ -79,7 +88,7 @@ func genName(r *kit.Rand, pool []string) string {
 	d := r.Range(1, 3)
 	s := ""
 	for i := 0; i < d; i++ {
-		s += "/" + kit.Pick(r, comps)
+		s += "/" + pickComp(r)
 	}
 	return s
 }
@@ -130,6 +139,7 @@ func (Engine) Generate(prop string, r *kit.Rand, tier string) *kit.Scenario[Conf
 			if r.Chance(0.2) {
 				no.Digest = r.Range(1, 2)
 			}
+			no.NoReason = r.Chance(0.25)
 			sc.Ops = append(sc.Ops, no)
 		case 3:
 			sc.Ops = append(sc.Ops, Op{Op: "advance", Ms: kit.Pick(r, []int{0, 1, 9, 10, 11, 50, 100, 109, 110, 111, 500, 1010, 4010})})
@@ -310,10 +320,23 @@ type inInterest struct {
 	reply    func(enc.Wire) error
 }
 
+// mkName: "/"-separated components; three spellings stand for components that look alike and are different:
+// V1 = version component with value 01, V01 = version component with the non-minimal value 00 01, Gv = generic
+// component whose bytes are "v=1".
 func mkName(s string) enc.Name {
-	n, err := enc.NameFromStr(s)
-	if err != nil {
-		panic("harness: bad name " + s)
+	var n enc.Name
+	for _, c := range strings.Split(strings.Trim(s, "/"), "/") {
+		switch c {
+		case "":
+		case "V1":
+			n = append(n, enc.Component{Typ: enc.TypeVersionNameComponent, Val: []byte{1}})
+		case "V01":
+			n = append(n, enc.Component{Typ: enc.TypeVersionNameComponent, Val: []byte{0, 1}})
+		case "Gv":
+			n = append(n, enc.Component{Typ: enc.TypeGenericNameComponent, Val: []byte("v=1")})
+		default:
+			n = append(n, enc.NewStringComponent(enc.TypeGenericNameComponent, c))
+		}
 	}
 	return n
 }
@@ -546,10 +569,19 @@ func (e Engine) runBody(t *testing.T, ctx *kit.Ctx, sc *kit.Scenario[Config, Op]
 				ctx.Probe("nack-for-a-name-with-implicit-digest")
 			}
 			ei, _ := spec.Spec{}.MakeInterest(nn, &ndn.InterestConfig{Nonce: utils.IdPtr(uint64(7))}, nil, nil)
-			lp := &spec.Packet{LpPacket: &spec.LpPacket{Nack: &spec.NetworkNack{Reason: spec.NackReasonNoRoute}, Fragment: ei.Wire}}
+			reason := uint64(spec.NackReasonNoRoute)
+			if op.NoReason {
+				reason = spec.NackReasonNone
+				ctx.Probe("nack-without-a-reason")
+			}
+			lp := &spec.Packet{LpPacket: &spec.LpPacket{Nack: &spec.NetworkNack{Reason: reason}, Fragment: ei.Wire}}
 			encoder := spec.PacketEncoder{}
 			encoder.Init(lp)
+			nrecv := len(received)
 			feedPkt(encoder.Encode(lp).Join())
+			if len(received) != nrecv {
+				return fail("C20/nack-handed-to-interest-handler", "", "a Nack for %s (reason %d) was handed to the Interest handler %q as an incoming Interest", op.Name, reason, received[len(received)-1].handler)
+			}
 		case "advance":
 			if useDummy {
 				dtimer.MoveForward(time.Duration(op.Ms) * time.Millisecond)
